@@ -79,7 +79,8 @@ def map_thick(case):
     h = kc.last(k, j, i)
     m_hit = run.sigma(h)
     prove("sample.hit_cell_is_loaded", core.implies(h >= 0, core.conj(m_hit >= 0, m_hit < run.n)))
-    prove("sample.hit_cell_contains_sample_point", core.implies(h >= 0, run.contains(m_hit, q)))
+    ax_hit = core.implies(h >= 0, kc.contains(h, k, j, i))  # the kernel contract's ghost fact (asserted by kc.last)
+    core.lemma("sample.hit_cell_contains_sample_point", [ax_hit] + run.unit_facts(), core.implies(h >= 0, run.contains(m_hit, q)))
     sample = snp.MaybeNaN.of(kc.out.elem((0, k, j, i)))
     prove("sample.value", core.conj(SV.lift(sample.isnan) == (h < 0),
                                     core.implies(h >= 0, SV.lift(sample.val) == SV.lift(run.data[0]._array.elem((m_hit,))))))
